@@ -107,7 +107,10 @@ ContextOK(cl) ==
        \* extern signatures: pointers and primitive types only (features.md "Interoperability with C")
        /\ (cl.v = "ixptr" => \E j \in 1..Len(cl.path) : cl.path[j] = "i")
        /\ (cl.v # "" => /\ cl.kind = "param" /\ Len(cl.path) <= 1
-                        /\ (cl.v = "extern" => cl.d \in {I32, Ptr(I32), Ptr(Ptr(I32))}))
+                        \* (twelfth round, C08k: an array view `[]i32` in an extern signature is an array WITHOUT length; its
+                        \* elements are as immutable as those of any other view parameter)
+                        /\ (cl.v = "extern" => \/ cl.d \in {I32, Ptr(I32), Ptr(Ptr(I32))}
+                                               \/ (cl.d = Slice(I32) /\ cl.path = <<"i">> /\ cl.ctx \in {"assign", "read", "arg"})))
        /\ (cl.x \in SibContexts => /\ cl.ctx = "read" /\ cl.k = 0 /\ Len(cl.path) <= 2
                                      /\ Kind(et) \in {"arr", "struct"} /\ Declarable(et))
        /\ (cl.x \notin SibContexts \cup {"direct"} => /\ cl.ctx = "arg" /\ cl.k >= 1 /\ Len(cl.path) <= 2
